@@ -72,13 +72,14 @@ class C08(core.Check):
         sessions = [engcorr.gen_session(rng, fast=False, max_n=60, tight=True, vol=rng.choice([10, 16, 24]),
                                         gap_prob=rng.choice([0.1, 0.4]), lengths=[15, 20, 30], data=False, allow_two=False)
                     for _ in range(self.budget(120, 1000, boost))]
-        engcorr.compare_sessions(res, sessions)
+        engcorr.compare_sessions(res, sessions + engcorr.micro_sessions(rng, self.budget(80, 800, boost)))
 
     def path_oracle(self, res, boost):
         rng = random.Random(self.seed * 104729 + 8)
-        for _ in range(self.budget(200, 1500, boost)):
-            sess = engcorr.gen_session(rng, fast=False, max_n=60, tight=True, vol=rng.choice([10, 16, 24]),
-                                       gap_prob=rng.choice([0.1, 0.4]), lengths=[15, 20, 30], data=rng.random() < 0.3)
+        sessions = [engcorr.gen_session(rng, fast=False, max_n=60, tight=True, vol=rng.choice([10, 16, 24]),
+                                        gap_prob=rng.choice([0.1, 0.4]), lengths=[15, 20, 30], data=rng.random() < 0.3)
+                    for _ in range(self.budget(200, 1500, boost))]
+        for sess in sessions + engcorr.micro_sessions(rng, self.budget(250, 3000, boost)):
             cands = engcorr.candles_of(sess)
             ev, tr, err = engcorr.run_real(sess, cands)
             bad = engoracles.c08_violations(sess, cands, tr)
@@ -91,7 +92,8 @@ class C08(core.Check):
             res.count('minutes-with-several-fills', sum(1 for v in multi.values() if v > 1))
             for (what, k, info) in bad[:2]:
                 res.fail(**{'class': 'matching/' + what, 'input': {'session': {kk: sess[kk] for kk in (
-                    'kind', 'fee', 'leverage', 'isolated', 'fast', 'routes', 'droutes', 'n', 'scripts', 'candle_seed', 'vol', 'gap_prob')}},
+                    'kind', 'fee', 'leverage', 'isolated', 'fast', 'routes', 'droutes', 'n', 'scripts', 'candle_seed', 'vol', 'gap_prob', 'rows')
+                    if kk in sess}},
                     'observed': {'order': k, 'info': info}})
 
     def oracle(self, res, boost):
